@@ -8,6 +8,7 @@
    FULL STATEMENTS (kept visible; what is proved below is weaker where the name says _partial): *)
 From Coq Require Import List NArith Bool String.
 From Verif Require Import Model.C09_Types Corr.C09_Eval Proofs.C09_Types.
+From Verif Require Import Model.C09_P4_Wf Proofs.C09_P4_Strings Proofs.C09_P4_Keys Proofs.C09_P4_Canon Proofs.C09_P4_Ident.
 Import ListNotations.
 Local Open Scope N_scope.
 
@@ -52,6 +53,58 @@ Theorem C09_canon_iff_identical_reverse_order_bounded_partial :
   In x z -> In y z -> (fst x = fst y <-> identical (snd x) (snd y) = true).
 Proof. exact (forallb_zip_lift flags_current dom_env (rev dom) (proj2 canon_agree_current)). Qed.
 
+(* ---- identity, UNBOUNDED (phase 4).  For EVERY environment of declarations and EVERY sequence of type terms of ANY
+   depth that are well-formed ([wfb], Model/C09_P4_Wf.v: constructor arities, indices in range, identifiers and package
+   paths without , $ \ , exported = ASCII upper-case initial, struct package "" iff no unexported field, no chan that is
+   both send-only and receive-only; TAGS ARBITRARY), canonicalised one after the other in one state by the model of
+   $ptrType/$sliceType/$arrayType/$chanType/$mapType/$funcType/$structType/$interfaceType after $newType/init of all
+   declarations: two of them get the same run-time object iff they are identical by Go's rules.  By structural
+   induction over type terms and over the sequence (hash-consing invariant [Inv] + injectivity of the typeKey strings). *)
+Definition C09_canon_wf_full_statement : Prop :=
+  forall env (ts : list ty) i j, forallb (wfb (N.of_nat (List.length env))) ts = true ->
+    let ids := fst (canon_list flags_current ts (load_env flags_current env)) in
+    (i < List.length ts)%nat -> (j < List.length ts)%nat ->
+    (nth i ids 0 = nth j ids 0 <-> identical (nth i ts (T (LBasic 0) [])) (nth j ts (T (LBasic 0) [])) = true).
+Theorem C09_canon_iff_identical : C09_canon_wf_full_statement.
+Proof. exact canon_iff_identical_wf. Qed.
+Print Assumptions C09_canon_iff_identical.
+
+(* [C09_canon_full_statement] as first written (no well-formedness hypothesis) is false, but only for junk terms that
+   no compiler output contains: a declaration index out of range falls back to object 0 (= bool) *)
+Theorem C09_canon_full_statement_junk_refuted : ~ C09_canon_full_statement.
+Proof. exact canon_full_junk_refuted. Qed.
+
+(* the hash-consing invariant after any environment and any sequence (no well-formedness needed for [Inv]: cache
+   entries point to fresh objects, never to a predeclared / declared type, no object has two keys), and every
+   well-formed term's object REPRESENTS it (component-wise, through the caches) *)
+Theorem C09_canon_hashcons_invariant : forall env ts ids s,
+  canon_list flags_current ts (load_env flags_current env) = (ids, s) ->
+  Inv s /\ (forallb (wfb (N.of_nat (List.length env))) ts = true -> Forall2 (rep s) ids ts).
+Proof. exact canon_hashcons. Qed.
+(* ... and it stays the representative after arbitrarily many later canonicalisations *)
+Theorem C09_canon_stable_later : forall env ts1 ts2 ids1 s1 ids2 s2,
+  forallb (wfb (N.of_nat (List.length env))) ts1 = true ->
+  canon_list flags_current ts1 (load_env flags_current env) = (ids1, s1) ->
+  canon_list flags_current ts2 s1 = (ids2, s2) -> Forall2 (rep s2) ids1 ts1.
+Proof. exact canon_stable_later. Qed.
+
+(* the typeKey strings (cache, key) are injective over well-formed labels and component ids - all eight constructors *)
+Theorem C09_typekey_injective : forall nd l ids l' ids' ck,
+  composite l = true -> composite l' = true ->
+  lab_wf nd l (List.length ids) = true -> lab_wf nd l' (List.length ids') = true ->
+  key_of l ids = Some ck -> key_of l' ids' = Some ck -> l = l' /\ ids = ids'.
+Proof. exact key_inj. Qed.
+Print Assumptions C09_typekey_injective.
+(* the tag escaping s.replace(/\\/g,"\\\\").replace(/\$/g,"\\$") is prefix-free w.r.t. the separator: an escaped string followed by
+   end-of-key or by the separator determines the string and the rest *)
+Theorem C09_tag_escape_prefix_free : forall x, x <> c_bslash -> forall a b r r',
+  tail_ok x r -> tail_ok x r' -> escape x a ++ r = escape x b ++ r' -> a = b /\ r = r'.
+Proof. exact esc_tok_inj. Qed.
+(* one representative per Go type in ANY state satisfying the invariant *)
+Theorem C09_representative_unique : forall s, Inv s -> forall t u i j,
+  wfb (nd_of s) t = true -> wfb (nd_of s) u = true -> rep s i t -> rep s j u -> (i = j <-> identical t u = true).
+Proof. exact rep_unique. Qed.
+
 (* ---- method sets and assertions.  PARTIAL (bounded): over ALL 19683 families of four struct types (every embedding
    by value / by pointer of earlier types, every value/pointer-receiver placement of M on T0..T2, optional field M),
    every family outside the four recorded classes ([fam_clean]: 8725 of them) gets Go's method sets (names and owners)
@@ -89,3 +142,6 @@ Example C09_nonvacuous :
   (500 <=? N.of_nat (List.length dom)) = true /\ N.of_nat (List.length mset_fams) = 19683 /\
   N.of_nat (List.length (filter fam_clean mset_fams)) = 8725.
 Proof. split; [exact dom_size|]. split; [exact mset_fams_size|exact clean_count]. Qed.
+(* the well-formedness hypothesis admits deep terms with hostile tags (forged separators, backslashes) *)
+Example C09_wf_nonvacuous : forallb (wfb 2) p4_nasty = true.
+Proof. exact p4_nasty_wf. Qed.
